@@ -63,6 +63,7 @@ def check(ctx) -> None:
     r712(ctx)
     r713(ctx)
     r714(ctx)
+    r715(ctx)
 
 
 def r71(ctx) -> None:
@@ -882,3 +883,114 @@ def r714(ctx) -> None:
                     f'under a truth test on one of {sorted(atoms)}')
     if n < 1:
         raise AnchorError('no construction of MultipartBodyStructure found')
+
+
+# RFC 3501 section 9, position by position.  N nstring, S! string that is
+# never NIL, # number, P body-fld-param, D body-fld-dsp, A address list,
+# ENV envelope, BODY body, PARTS 1*body.
+_EXT = ['N', 'D', 'N', 'N']               # md5 dsp lang loc
+_FIELDS = ['N', 'N', 'P', 'N', 'N', 'S!', '#']
+GRAMMAR_POSITIONS = {
+    ('_AddressList', '_parse'): ['N', 'N', 'N', 'N'],
+    ('EnvelopeStructure', '_value'):
+        ['N', 'N', 'A', 'A', 'A', 'A', 'A', 'A', 'N', 'N'],
+    ('MultipartBodyStructure', '_value'): ['PARTS', 'N'],
+    ('MultipartBodyStructure', 'extended'): ['PARTS', 'N', 'P', 'D', 'N',
+                                             'N'],
+    ('ContentBodyStructure', '_value'): _FIELDS,
+    ('ContentBodyStructure', 'extended'): _FIELDS + _EXT,
+    ('TextBodyStructure', '_value'): _FIELDS + ['#'],
+    ('TextBodyStructure', 'extended'): _FIELDS + ['#'] + _EXT,
+    ('MessageBodyStructure', '_value'): _FIELDS + ['ENV', 'BODY', '#'],
+    ('MessageBodyStructure', 'extended'):
+        _FIELDS + ['ENV', 'BODY', '#'] + _EXT,
+}
+
+
+def _kind(m, f, e, depth=0) -> str:
+    """Grammar kind of one element expression of a structure display."""
+    if isinstance(e, ast.Name):
+        ks = {_kind(m, f, v, depth + 1) for v in resolve_local(f, e)
+              if v is not None and v is not e}
+        return ks.pop() if len(ks) == 1 else '?' + txt(e)
+    if isinstance(e, ast.IfExp):
+        ks = {_kind(m, f, e.body, depth + 1), _kind(m, f, e.orelse,
+                                                    depth + 1)}
+        return ks.pop() if len(ks) == 1 else '?' + txt(e)[:30]
+    if isinstance(e, ast.Attribute):
+        t = txt(e)
+        if 'envelope_structure' in t:
+            return 'ENV'
+        if 'body_structure' in t:
+            return 'BODY'
+        return '?' + t
+    if not isinstance(e, ast.Call):
+        return '?' + txt(e)[:30]
+    fn = txt(e.func)
+    if fn == 'String.build':
+        return 'S!' if kwarg(e, 'fallback') is not None or len(e.args) >= 3 \
+            else 'N'
+    if fn in ('Nil', 'DateTime', 'QuotedString', 'LiteralString'):
+        return 'N'
+    if fn == 'Number':
+        return '#'
+    if fn == '_Concatenated':
+        return 'PARTS'
+    table = {'_ParamsList': 'P', '_Disposition': 'D', '_AddressList': 'A'}
+    if fn in table:
+        return table[fn]
+    if isinstance(e.func, ast.Attribute) and is_name(e.func.value, 'self') \
+            and f.cls is not None and depth < 3:
+        g = f.cls.find_method(e.func.attr)
+        if g is not None:
+            ks = set()
+            for r in walk_local(g.node):
+                if isinstance(r, ast.Return) and r.value is not None:
+                    if isinstance(r.value, ast.Call) and isinstance(
+                            r.value.func, ast.Attribute) and \
+                            r.value.func.attr == g.name:
+                        continue               # tail call of itself
+                    ks.add(_kind(m, g, r.value, depth + 1))
+            if len(ks) == 1:
+                return ks.pop()
+    return '?' + txt(e)[:30]
+
+
+def r715(ctx) -> None:
+    R = ctx.rule('R7.15', 'ENVELOPE / BODYSTRUCTURE writers agree with the '
+                 'grammar position by position', 10)
+    m = ctx.proj.module(RESP_FETCH)
+    for (cn, fname), want in GRAMMAR_POSITIONS.items():
+        cls = m.classes.get(cn)
+        f = cls.own_method(fname) if cls is not None else None
+        if f is None:
+            raise AnchorError(f'{RESP_FETCH}: {cn}.{fname} vanished; '
+                              f're-audit the grammar table of R7.15')
+        shown = []
+        for r in walk_local(f.node):
+            if not isinstance(r, ast.Return) or r.value is None:
+                continue
+            for v in resolve_local(f, r.value):
+                if isinstance(v, ast.Call) and call_name(v) == 'List' and \
+                        v.args and isinstance(v.args[0], (ast.List,
+                                                          ast.Tuple)):
+                    shown.append((v, [_kind(m, f, el)
+                                      for el in v.args[0].elts]))
+        key = f'{cn}.{fname}: fields match RFC 3501 section 9'
+        if not shown:
+            R.undecided(f, f.node, key, 'no List([...]) display returned')
+            continue
+        for v, got in shown:
+            norm = [('N' if (g == 'S!' and w == 'N') else g)
+                    for g, w in zip(got, want)] + got[len(want):]
+            if any(g.startswith('?') for g in norm):
+                R.undecided(f, v, key, f'element kinds {got}')
+            else:
+                R.check(norm == want, f, v, key,
+                        f'the display has {got} where the grammar has '
+                        f'{want} (N nstring, S! string never NIL, # number, '
+                        f'P parameter list, D disposition, A address list): '
+                        f'a field is missing, doubled, swapped or of a kind '
+                        f'the position does not allow, so FETCH '
+                        f'{"ENVELOPE" if "A" in want or cn == "_AddressList" else "BODYSTRUCTURE"}'
+                        f' does not parse', f'{len(want)} fields')
